@@ -565,8 +565,8 @@ class Body:
         elif len(ds) == 1:
             t = self._def_term(ds[0], depth + 1)
         else:
-            alts = tuple(sorted(set(self._def_term(d, depth + 1) for d in ds), key=repr))
-            t = alts[0] if len(alts) == 1 else ("phi", alts, l)
+            alts = tuple(sorted(set(x for x in (self._def_term(d, depth + 1) for d in ds) if x != ("never",)), key=repr))
+            t = ("never",) if not alts else (alts[0] if len(alts) == 1 else ("phi", alts, l))
         if l in self.inplace and t[0] not in ("param", "env", "cparam", "upvar"):
             t = ("mutated", t, tuple(sorted(self.inplace[l])))
         self._term_cache[key] = t
